@@ -138,16 +138,28 @@ func VH_array(steps int, size0 int) {
 	maArr[a0].n = size0
 	utils.HadError, utils.HadRuntimeError = false, false
 	verifClearEvents()
-	av, _ := in.eval(&ast.ArrayLiteral{Elements: elems, Line: 1}, env, false)
+	literalNode := &ast.ArrayLiteral{Elements: elems, Line: 1}
+	av, _ := in.eval(literalNode, env, false)
 	env.Define("a", av)
 	maVar[0] = a0
-	// b: an alias of a, or nothing yet
-	if verifChoice(2) == 0 {
+	// b: an alias of a, nothing yet, or a second evaluation of the very same literal node
+	// (what a loop body or a function called twice does): a fresh array with the same elements
+	switch verifChoice(3) {
+	case 0:
 		in.eval(&ast.VarStmt{Name: tok(token.IDENTIFIER, "b", 1), Initializer: ident("a", 1), Line: 1}, env, false)
 		maVar[1] = a0
-	} else {
+	case 1:
 		env.Define("b", nil)
 		maVar[1] = -1
+	default:
+		bv, _ := in.eval(literalNode, env, false)
+		env.Define("b", bv)
+		b0 := maNew()
+		for i := 0; i < size0; i++ {
+			maArr[b0].elems[i] = maArr[a0].elems[i]
+		}
+		maArr[b0].n = size0
+		maVar[1] = b0
 	}
 	env.Define("c", nil)
 	maVar[2] = -1
